@@ -322,6 +322,35 @@ def Obj.mk? (kind : Kind) (mutable : Bool) (ap : AP) (keys : List Nat) (vals : L
     else none
   | k => if vals.length = keys.length ∧ 0 < vals.length then some ⟨k, mutable, ap, vals, some keys, validated⟩ else none
 
+/-! ### The strict in-place cull of the continuous class
+
+`fixes/C13_continuous_cull_in_place_divisor.patch` gives `HourlyContinuousCollection` its own
+`convert_to_culled_timestep`: after the valid-timestep assert it asserts `current_timestep % timestep == 0`
+(AssertionError, object unchanged) and then calls the base method.  `stepS strict` is the machine of a tree
+with (`strict = true`) or without (`strict = false`, `stepS false = step`) that override; the harness reads
+which one the tree under test has from its source and asks the driver for that machine (`hists` / `hist`). -/
+
+/-- Does the strict continuous class refuse this operation before the base method runs?  (The immutable twin
+    refuses every cull with AttributeError first; an invalid timestep never divides a valid one, so the
+    AssertionError of the valid-timestep test is covered as well.) -/
+def strictRefuses (strict : Bool) (o : Obj) : Op → Bool
+  | .cull ts =>
+    match o.kind with
+    | .cont => strict && o.mutable && decide (o.ap.timestep % ts ≠ 0)
+    | _ => false
+  | _ => false
+
+/-- One operation on a tree whose continuous class is strict (`true`) or not (`false`). -/
+def stepS (strict : Bool) (hoyOf : Nat → Rat) (o : Obj) (op : Op) : Obj × Out :=
+  if strictRefuses strict o op then (o, .err .assert) else step hoyOf o op
+
+/-- A history on such a tree. -/
+def runS (strict : Bool) (hoyOf : Nat → Rat) (o : Obj) : List Op → Obj × List Out
+  | [] => (o, [])
+  | op :: ops =>
+    ((runS strict hoyOf (stepS strict hoyOf o op).1 ops).1,
+     (stepS strict hoyOf o op).2 :: (runS strict hoyOf (stepS strict hoyOf o op).1 ops).2)
+
 /-! ### Unit tests -/
 
 private def o1 : Obj := ⟨.cont, true, ⟨1, 1, 0, 1, 1, 23, 2, false⟩, (List.range 48).map Int.ofNat, none, true⟩
@@ -344,5 +373,11 @@ private def valsOf : Out → List Int
 #guard (match (step h0 (o1.copy false) (.setItem 0 5)).2 with | .err .attr => true | _ => false)
 #guard (step h0 o1 (.setItem (-1) 7)).1.vals.getLast? = some 7
 #guard (match (step h0 o1 (.setItem 48 7)).2 with | .err .index => true | _ => false)
+
+-- the strict continuous class refuses a cull to a non-dividing timestep and keeps a dividing one
+#guard (match (stepS true h0 { o1 with ap := { o1.ap with timestep := 4 }, vals := (List.range 96).map Int.ofNat } (.cull 3)).2 with
+  | .err .assert => true | _ => false)
+#guard (runS true h0 o1 [.read .all, .cull 1, .read (.keys [60, 120])]).2.map valsOf = [(List.range 48).map Int.ofNat, [], [2, 4]]
+#guard (runS false h0 o1 [.cull 1, .read (.keys [60, 120])]).2.map valsOf = (run h0 o1 [.cull 1, .read (.keys [60, 120])]).2.map valsOf
 
 end Filter
